@@ -256,6 +256,42 @@ theorem inv_setStale {s : St} (h : Inv s) (c : Nat) (b : Bool) : Inv (setStale s
   · constructor <;>
       simp only [upd, apply_ite CC.connID, apply_ite CC.auth, apply_ite CC.clientID] <;> grind [Inv]
 
+theorem inv_reRegister {s : St} (h : Inv s) (c : Nat) (hn : c < s.n) (hs : s.sconn c = true) :
+    Inv (reRegister .repaired s c) := by
+  obtain ⟨h1, _, h3, _, _, _⟩ := evictForRoom_facts s
+  have he := inv_evictForRoom h
+  have hr := inv_removeConn he c
+  unfold reRegister
+  refine inv_insertNew hr c ?_ ?_ ?_
+  · unfold removeConn
+    cases hm : (evictForRoom .repaired s).connMap c with
+    | none => simpa using hm
+    | some o =>
+      have := (he.cm_lt c o hm).2.1
+      simp [removeObj, upd, this]
+  · have : (removeConn .repaired (evictForRoom .repaired s) c).sconn = (evictForRoom .repaired s).sconn := by
+      unfold removeConn; split <;> rfl
+    rw [this, h3]; exact hs
+  · have : (removeConn .repaired (evictForRoom .repaired s) c).n = (evictForRoom .repaired s).n := by
+      unfold removeConn; split <;> rfl
+    rw [this, h1]; exact hn
+
+/-- the limit eviction inside Register closes only the oldest registered connection, never an unregistered one -/
+theorem registerNew_closed {s : St} (h : Inv s) (c : Nat) (hc : s.connMap c = none) :
+    (registerNew .repaired s c).closed c = s.closed c := by
+  unfold registerNew insertNew evictForRoom
+  simp only
+  split
+  · split
+    · rename_i o ho
+      obtain ⟨c', hc'⟩ := oldest_spec s o ho
+      have := (h.cm_lt c' o hc').2.1
+      simp only [removeObj, upd]
+      have hne : c ≠ c' := by intro e; rw [e, hc'] at hc; cases hc
+      simp [this, hne]
+    · rfl
+  · rfl
+
 theorem inv_step {s : St} (h : Inv s) (op : Op) : Inv (step .repaired s op) := by
   cases op with
   | accept c =>
@@ -318,6 +354,18 @@ theorem inv_step {s : St} (h : Inv s) (op : Op) : Inv (step .repaired s op) := b
     simp only [step]
     split
     · constructor <;> grind [Inv]
+    · exact h
+  | reg c x =>
+    simp only [step]
+    split
+    · rename_i hc
+      split
+      · exact inv_reRegister h c hc.1 hc.2
+      · split
+        · rename_i hx
+          have hi := inv_registerNew h c hx.2.1 hc.2 hc.1
+          exact inv_updateAuth hi c x (by rw [registerNew_closed h c hx.2.1]; exact hx.2.2)
+        · exact h
     · exact h
 
 theorem inv_run (ops : List Op) : ∀ {s : St}, Inv s → Inv (run .repaired s ops) := by
@@ -457,6 +505,17 @@ theorem step_frame (s : St) (op : Op) :
   | unreg c => simp only [step, pendStep]; split; (obtain ⟨a, b, c', d⟩ := key _ (same4_unregister s c); grind [upd]); grind [upd]
   | treg c => simp only [step, pendStep]; split <;> grind [upd]
   | brk c => simp only [step, pendStep]; split <;> grind [upd]
+  | reg c x =>
+    simp only [step, pendStep]
+    split
+    · split
+      · obtain ⟨a, b, c', d⟩ := key _ (((same4_evictForRoom s).trans (same4_removeConn _ c)).trans (same4_insertNew _ c))
+        exact ⟨a, b, fun c h => Or.inl (c' c h), fun acc hacc c hc => hacc c (d c hc)⟩
+      · split
+        · obtain ⟨a, b, c', d⟩ := key _ (((same4_evictForRoom s).trans (same4_insertNew _ c)).trans (same4_updateAuth _ c x))
+          exact ⟨a, b, fun c h => Or.inl (c' c h), fun acc hacc c hc => hacc c (d c hc)⟩
+        · grind [upd]
+    · grind [upd]
 
 
 theorem run_n (ops : List Op) : ∀ s : St, (run .repaired s ops).n = s.n := by
